@@ -14,6 +14,7 @@ from vf.ref.ecref import SECP256K1 as S
 from vf.runner import Acc, filler
 
 PROPERTY = "C16"
+INTERRUPT_FILES = ("bits/tx.py", "bits/utils.py", "bits/keys.py", "bits/bips/bip143.py", "bits/script/utils.py")
 LEVEL = "exploration"
 ENGINES = ["E1-scope-enumerator", "E2-small-curve"]
 RULE = ("send configurations as a deviation-bounded product (quick d<=2, thorough d<=3 on a scaled-down curve; d<=1 / d<=2 on "
@@ -31,6 +32,7 @@ ASSUMPTIONS = [
     "transactions published in BIP143 (all six sighash types) in the selftest", "E2 small-curve retargeting (see C03)",
 ]
 OBLIGATIONS = {
+    "interrupted_calls": "interruption points explored (a send cut short by an asynchronous exception after a send with another key, then both again)",
     "history_sequences": "operation sequences (non-initial process states) explored",
     "inexact_float_amount": "a UTXO amount whose float*1e8 is not an integer", "vout_nonzero": "a spent output index other than 0",
     "multi_input": "more than one input selected", "segwit_sender": "a segwit sender kind signed", "legacy_sender": "a legacy sender kind signed",
@@ -91,7 +93,7 @@ def build(C, seed, a):
     if C is S:
         ds = [int.from_bytes(filler(seed, f"c16-d{i}", 32), "big") % C.n or 1 for i in range(4)]
     else:
-        ds = [3, 5, 7, 11]
+        ds = [3, 5, 7, 11] if not a.get("keyset") else [13, 17, 19, 23]        # (a second set of keys: histories with ANOTHER sender key)
     P = [C.mul(d, C.G) for d in ds]
     kind = a["sender"]
     m, n = a["mn"]
@@ -318,6 +320,9 @@ def run_case(kind, case):
     if kind == "seq":
         from vf import seqexplore
         return seqexplore.replay(run_case, case)
+    if kind == "interrupted":
+        from vf import seqexplore
+        return seqexplore.replay_interrupted(run_case, case)
     return CASES[kind](case)
 
 
@@ -334,6 +339,9 @@ def seq_ops(job):
     # amounts with 12-16 significant digits (what a reduced-precision decimal context or a float sum rounds)
     ops.append(("send", {"seed": job["seed"], "curve": cv, "a": dict(base, sender="p2wpkh", mn=[1, 1], amt=7, n_utxo=2, fraction=0.5)}))
     ops.append(("send", {"seed": job["seed"], "curve": cv, "a": dict(base, sender="p2sh-p2wpkh", mn=[1, 1], amt=12, n_utxo=3, fraction=0.999)}))
+    # 14..16: the same kinds of sender with another set of keys
+    for sender in ("p2wpkh", "p2pkh-c", "p2sh-p2wpkh"):
+        ops.append(("send", {"seed": job["seed"], "curve": cv, "a": dict(base, sender=sender, mn=[1, 1], keyset=1)}))
     return ops
 
 
@@ -343,6 +351,8 @@ def jobs(tier, seed):
     js += [{"name": f"secp/{sh}", "part": "send", "shard": [sh, 16], "d": 1 if tier == "quick" else 2, "weight": 10} for sh in range(16)]
     from vf.runner import seq_jobs
     js += [dict(j, env_decimal=True) for j in seq_jobs(6, curve=t, weight=5)]
+    from vf.runner import interrupt_jobs
+    js += interrupt_jobs(3, curve=t, weight=6)
     return js
 
 
@@ -350,6 +360,13 @@ def run_job(job):
     if job["part"] == "seq":
         from vf.runner import run_seq_job
         return run_seq_job(job, seq_ops(job), run_case)
+    if job["part"] == "interrupted":
+        # E6: a send with one key completes, a send with ANOTHER key is cut short by an asynchronous exception at every line, then
+        # the interrupted send is retried and the first one repeated
+        from vf.runner import run_interrupt_job
+        ops = seq_ops(dict(job, shard=[0, 1]))
+        x, pre = [(ops[14], ops[4]), (ops[15], ops[0]), (ops[16], ops[13])][job["idx"]]
+        return run_interrupt_job(job, [None] * job["idx"] + [x], [x, pre, ops[4]], run_case, INTERRUPT_FILES, pre=[pre])
     acc = Acc(job)
     seed, tier = job["seed"], job["tier"]
     sh, nsh = job["shard"]
